@@ -448,6 +448,10 @@ mod sx {
 
     /// Child mode: explore one plan to one bound; print a JSON summary.
     pub fn child(plan_idx: usize, bound: usize) {
+        // watchdog: an exploration that does not finish is a machinery failure, never a verdict
+        unsafe {
+            libc::alarm(std::env::var("VERIF_C19_CHILD_LIMIT_S").ok().and_then(|s| s.parse().ok()).unwrap_or(3600));
+        }
         install();
         let plans = plans();
         let (name, plan) = &plans[plan_idx];
